@@ -375,17 +375,28 @@ def chain(index, rep, db):
                 if all(isinstance(v_, ast.Name) for v_ in vals):
                     roles = dict(zip((() if fresh_interp else ("interpreter",)) + ("constants", "model", "variables", "time_consts", "title"),
                                      [v_.id for v_ in vals]))
+                elif all(isinstance(v_, ast.Name) for v_ in vals if v_ is not m3[0] and v_ is not m3[1]) and all(
+                        isinstance(v_, ast.Subscript) and isinstance(v_.value, ast.Name) and isinstance(v_.slice, ast.Constant) and isinstance(v_.slice.value, int)
+                        for v_ in m3[:2]) and m3[0].value.id == m3[1].value.id and (m3[0].slice.value, m3[1].slice.value) == (0, 1):
+                    # model and variables arrive as slots 0 and 1 of one record of the solve (what the solve routine hands back, kept whole)
+                    record = m3[0].value.id
+                    roles = dict(zip((() if fresh_interp else ("interpreter",)) + ("constants", "model", "variables", "time_consts", "title"),
+                                     [(v_.id if isinstance(v_, ast.Name) else f"{record}#{v_.slice.value}") for v_ in vals]))
     except AnalysisError:
         roles = {}
-    rep.check(bool(roles) and len(set(roles.values())) == len(roles) >= 5 and set(roles.values()) <= set(P[1:]), rule, "wiring:same-solve",
+    rep.check(bool(roles) and len(set(roles.values())) == len(roles) >= 5 and {r_.split("#")[0] for r_ in roles.values()} <= set(P[1:]), rule, "wiring:same-solve",
               "results are not extracted from the (model, variables, time_consts, constants) of the solve being reported", loc=loc(RUN, io),
               detail=f"got {got}")
     ro = index.func(RUN, "ScenarioRunner.run_optimizer")
     call = [c for c in walk_no_nested(ro) if isinstance(c, ast.Call) and dotted(c.func) == "self.interpret_optimizer_results"]
     from .core import bind_args
     bound = bind_args(call[0], io) if len(call) == 1 else {}
-    ok = bool(roles) and all(roles[r_] in bound for r_ in ("constants", "model", "variables", "time_consts"))
+    ok = bool(roles) and all(roles[r_].split("#")[0] in bound for r_ in ("constants", "model", "variables", "time_consts"))
     if ok:
+        for r_ in ("model", "variables"):
+            if "#" in roles[r_]:
+                base_, slot_ = roles[r_].split("#")
+                bound[roles[r_]] = ast.Subscript(value=bound[base_], slice=ast.Constant(value=int(slot_)), ctx=ast.Load())
         inl_ro = Inliner(ro)
         RP = [a.arg for a in ro.args.args]
         from .core import through_helpers
@@ -416,10 +427,16 @@ def chain(index, rep, db):
                 return None
             # the solve routine is given the same two tables again - or takes none (it uses the ones the Optimizer was constructed with)
             mp_ = [a.arg for a in ocls[c_.func.attr].args.args][1:]
-            if "consts_for_optimizer" in mp_ or "time_consts" in mp_ or len(mp_) >= 2:
+            if "consts_for_optimizer" in mp_ and "time_consts" in mp_ or (len(mp_) >= 2 and "consts_for_optimizer" not in mp_ and "time_consts" not in mp_):
                 meth = args_by_ref_names(c_, ocls[c_.func.attr], ["consts_for_optimizer", "time_consts"])
                 if None in meth or [norm_src(x) for x in meth] != [C_, T_]:
                     return None
+            else:
+                # it still takes one of the two (the other it reads from the object): that one must be the caller's own
+                bound_ = bind_args(c_, ocls[c_.func.attr])
+                for nm_, want_ in (("consts_for_optimizer", C_), ("time_consts", T_)):
+                    if nm_ in mp_ and (nm_ not in bound_ or norm_src(bound_[nm_]) != want_):
+                        return None
             return norm_src(c_)
 
         for m_, v_ in zip(a4[1], a4[2]):
